@@ -76,7 +76,9 @@ fn all_lists(len: usize) -> Vec<Vec<BasisElem>> {
 }
 
 fn judge_unary<G: GraphLike + PartialEq>(st: &mut Stats, spec: &DiagSpec, backend: &'static str, only: Option<&Value>) {
-    let g: G = spec.build();
+    let mut g: G = spec.build();
+    // a generic (complex, non-unit) scalar: e^{i pi/4} / sqrt2
+    *g.scalar_mut() = quizx::scalar::Scalar4::new([0, 1, 0, 0], 0) * quizx::scalar::Scalar4::new([0, 1, 0, -1], -1);
     let t = eval_graph(&g, None);
     let Some(tv) = exact(&t) else {
         st.inc("skipped_unevaluable_input");
